@@ -450,6 +450,52 @@ func runC04(c *fw.Ctx) {
 			c.Count("kind.function-use", 1)
 		}
 	}
+	// (h) handlers that fail: the body fails with X (thrown, asserted, or a builtin's Go error), the handler ends in a
+	// failure of its own (the same value again, a value of the same kind, another kind, a builtin error, an unbound
+	// symbol), alone, with finally, inside an outer try, inside a function and a future (seeded C04-m15: the evaluator
+	// comparing the two errors with ==, which panics for maps, vectors, lists, sets and functions)
+	thrown := []string{"1", "\"s\"", ":k", "nil", "{:code 1}", "[1 2]", "(list 1 2)", "#{:a}", "(fn (x) x)", "+", "(atom 1)", "{}", "[]", "()"}
+	bodies := []string{"(throw X)", "(assert false X)", "(nth [] 1)", "(undefined-symbol-c04)", "(do (throw X) 1)", "((fn () (throw X)))"}
+	tails := []string{"(throw e)", "(throw Y)", "(throw (list e Y))", "(nth [] 1)", "(undefined-symbol-c04)", "(e)", "(do (throw e))", "((fn () (throw e)))", "(if true (throw e) 1)", "(let (z e) (throw z))"}
+	wraps := []string{"T", "(try T (catch e2 e2))", "(try T (catch e2 (throw e2)))", "((fn () T))", "(do T 1)", "@(future T)", "(try T (finally 1))", "(let (r (try T (catch e3 e3))) r)"}
+	hi := 0
+	for xi, x := range thrown {
+		for bi, b := range bodies {
+			for ti, t := range tails {
+				for wi, wr := range wraps {
+					hi++
+					// the full product is 14*6*10*8 = 6720; quick runs a third of it (every combination of body/tail/wrap
+					// still occurs with several thrown kinds)
+					if c.Quick() && (hi+xi)%3 != 0 {
+						continue
+					}
+					if !c.Mine(idx) {
+						idx++
+						continue
+					}
+					idx++
+					y := thrown[(xi+ti+1)%len(thrown)]
+					if ti%2 == 0 {
+						y = x // same kind (and the same text) as the body's value
+					}
+					for fin := 0; fin < 2; fin++ {
+						inner := "(try " + strings.ReplaceAll(b, "X", x) + " (catch e " + strings.ReplaceAll(t, "Y", y) + ")"
+						if fin == 1 {
+							inner += " (finally 2)"
+						}
+						inner += ")"
+						text := strings.ReplaceAll(wr, "T", inner)
+						ast, rerr := lisp.READ(text, nil, base)
+						if rerr != nil {
+							panic(fmt.Sprint(text, rerr))
+						}
+						c04Run(c, base, fmt.Sprintf("failing-handler-%d-%d-%d-%d-%d", xi, bi, ti, wi, fin), ast, text, fmt.Sprintf("failing-handler:%d/%d", bi, ti), wi == 5, true)
+						c.Count("kind.failing-handler", 1)
+					}
+				}
+			}
+		}
+	}
 	// (e) seeded random compositions of the above (nesting malformed forms inside each other)
 	r := c.Rand("compose")
 	for i := 0; i < c.PerShard(c.Pick(200000, 6000000)); i++ {
@@ -498,7 +544,7 @@ func init() {
 	fw.Register(&fw.Property{
 		ID:     "C04",
 		Run:    runC04,
-		Rule:   "(a) every special-form head (15) x operand count 0..4 x 29 operand shapes (exhaustive to 2 operands in quick / 3 in thorough, sampled beyond); (b) functions and macros built from 21 malformed parameter lists and called with 0..3 arguments; (c) every function found in the loaded environment (minus interactive/printing helpers) x argument tuples of length 0..3 over 22 value kinds incl. atoms, futures, closures, macros, builtins, Go errors (sampled in quick, all in thorough); (d) ASTs READ cannot produce (nil slices/maps, empty symbol, non-symbol heads, closures/atoms/errors/floats spliced into head and operand positions) alone and as operands of every head; (e) seeded compositions nesting all of these; every AST is evaluated directly, as (try AST (catch e :caught)), under an already cancelled context and (a subset) as @(future AST); a Go panic reaching the harness's recover() or killing the worker process is a violation, so is an error that try/catch cannot handle; distinct = distinct (head/builtin, arity) classes; (g) function values of 26 provenances (plain, with-meta, ^meta, eval-built, from atoms/maps/lists, builtins with metadata) x 51 ways of applying them (direct with 0..3 arguments, apply, map, swap!, reduce, filter, sort-by, defmacro + call / macroexpand / map, future-call, memoize, partial, comp, ->, ->>, update, update-in, group-by, some, every?, with-meta, self-application)",
+		Rule:   "(a) every special-form head (15) x operand count 0..4 x 29 operand shapes (exhaustive to 2 operands in quick / 3 in thorough, sampled beyond); (b) functions and macros built from 21 malformed parameter lists and called with 0..3 arguments; (c) every function found in the loaded environment (minus interactive/printing helpers) x argument tuples of length 0..3 over 22 value kinds incl. atoms, futures, closures, macros, builtins, Go errors (sampled in quick, all in thorough); (d) ASTs READ cannot produce (nil slices/maps, empty symbol, non-symbol heads, closures/atoms/errors/floats spliced into head and operand positions) alone and as operands of every head; (e) seeded compositions nesting all of these; every AST is evaluated directly, as (try AST (catch e :caught)), under an already cancelled context and (a subset) as @(future AST); a Go panic reaching the harness's recover() or killing the worker process is a violation, so is an error that try/catch cannot handle; distinct = distinct (head/builtin, arity) classes; (g) function values of 26 provenances (plain, with-meta, ^meta, eval-built, from atoms/maps/lists, builtins with metadata) x 51 ways of applying them (direct with 0..3 arguments, apply, map, swap!, reduce, filter, sort-by, defmacro + call / macroexpand / map, future-call, memoize, partial, comp, ->, ->>, update, update-in, group-by, some, every?, with-meta, self-application); (h) failing handlers: 14 thrown values (scalars, collections, functions, atoms) x 6 failing bodies x 10 handler tails that fail themselves (the same value, one of the same kind, another kind, builtin error, unbound symbol) x 8 contexts (bare, outer try, rethrowing outer try, function, do, future, finally, let) x with/without finally",
 		Assume: []string{"recursion depth is bounded by construction (host-stack exhaustion is excluded by the quantifier)", "hand-forged zero-valued MalFunc/Func structs and foreign EnvType implementations are not generated"},
 		Finish: func(m *fw.Merged) {
 			m.Floor("asts", 10000)
